@@ -110,6 +110,14 @@ func NewConsumerGroup(parent, fanOutPath string, q FanOutQueue) (ConsumerGroup, 
 	}
 	// a new or reopened group never starts below the queue ack(messages at or below it may be gone),
 	// and its consumed sequence never stays behind its acknowledged sequence.
+	// nor beyond the appended sequence: a meta page that exists but is still zero filled(the process died while the
+	// group was being created) would otherwise read as "sequence 0 consumed and acknowledged" on an empty queue.
+	if appendedSeq := q.Queue().AppendedSeq(); consumedSeq > appendedSeq {
+		consumedSeq = appendedSeq
+	}
+	if ackSeq > consumedSeq {
+		ackSeq = consumedSeq
+	}
 	ackOfQueue := q.Queue().AcknowledgedSeq()
 	if ackSeq < ackOfQueue {
 		ackSeq = ackOfQueue
